@@ -291,3 +291,54 @@ Proof. split; [exact q2c_sq|]. split; [exact q2c_real|]. split.
     intros E. apply (f_equal (fun v => q2veqb v [q2h 0 0; q2h 2 0; q2h 0 0; q2h 0 0])) in E. vm_compute in E. discriminate.
   - vm_compute. reflexivity. Qed.
 Print Assumptions C08_haar_example.
+
+(* ---- Haar DWT along an arbitrary axis of a C-ordered N-d array (DWT(dims, axis, 'haar', level)):
+   the fibre operator of Ops/Haar.v lifted by Ops/Axis.v.  For EVERY outer, n, inner, level:
+   Op^H Op = id, (Op, Op^H) adjoint pair and isometry for the bilinear pairing (real operator). ---- *)
+From PV Require Import Haar2D.
+Theorem C08_haar_axis_isometry :
+  forall (K : StarRing) (c : K), c * c * (1 + 1) = 1 ->
+    forall outer n inner L (x x' : list K) (y : list K),
+      length x = (outer * n * inner)%nat -> length x' = (outer * n * inner)%nat ->
+      haar_axis_adj K c outer n inner L (haar_axis_fwd K c outer n inner L x) = x /\
+      (length y = (outer * padlen n L * inner)%nat ->
+         dotu K (haar_axis_fwd K c outer n inner L x) y = dotu K x (haar_axis_adj K c outer n inner L y)) /\
+      dotu K (haar_axis_fwd K c outer n inner L x) (haar_axis_fwd K c outer n inner L x') = dotu K x x'.
+Proof. intros K c Hc outer n inner L x x' y Hx Hx'. split; [apply haar_axis_adj_fwd; auto|]. split.
+  - intros Hy. apply haar_axis_adjoint; auto.
+  - apply haar_axis_isometry; auto. Qed.
+Print Assumptions C08_haar_axis_isometry.
+
+(* ---- DWT2D(wavelet='haar'): pywt.wavedec2 + coeffs_to_array, model Ops/Haar2D.v (hfwd2 / hinv2:
+   one step on both axes of the current approximation block per level, [[aa, ad],[da, dd]] nested in
+   the top-left corner; pad2 / crop as pylops).  LEVEL 1, every even-sized array: the 2-D step IS the
+   tensor product of the 1-D one-level transforms (rows by hfwd 1, then the same step on whole rows
+   along axis 0), and the inverse step undoes it. ---- *)
+Theorem C08_haar2d_level1_is_tensor :
+  forall (K : StarRing) (c : K) w (X : list (list K)), wfM K w X ->
+    step2 K c X = cappA K c (map (hfwd K c 1) X) ++ cdetA K c (map (hfwd K c 1) X).
+Proof. intros K c w X W. exact (step2_rows_then_cols K c w X W). Qed.
+Print Assumptions C08_haar2d_level1_is_tensor.
+(* _partial: proved for level = 1 (all sizes, with pylops' padding of both axes to
+   max(2^ceil(log2 n), 2) and the crop).  NOT proved: levels >= 2 (needs shape preservation of
+   hfwd2 on the nested block and the block re-assembly lemmas) and the adjoint / isometry identity
+   for the matrix pairing.  The multi-level model itself is executable and is compared with the
+   implementation (forward and adjoint, levels 0-3, padded, batch axis) in Coq by harness/c08.py. *)
+Theorem C08_haar2d_isometry_partial :
+  forall (K : StarRing) (c : K), c * c * (1 + 1) = 1 ->
+    (forall k j (X : list (list K)), wfM K (2 * j) X -> length X = (2 * k)%nat ->
+       hinv2 K c 1 (hfwd2 K c 1 X) = X) /\
+    (forall cc (X : list (list K)), wfM K cc X ->
+       dwt2_adj K c 1 (length X) cc (dwt2_fwd K c 1 (length X) cc X) = X).
+Proof. intros K c Hc. split.
+  - intros k j X W H. apply (hinv2_hfwd2_level1 K c Hc k j); auto.
+  - intros cc X W. apply dwt2_adj_fwd_level1; auto. Qed.
+Print Assumptions C08_haar2d_isometry_partial.
+(* exact instance: 3 x 2 integer array, level 2 (padded to 4 x 4), Q(sqrt 2): the multi-level model
+   inverts on this array and its top-left coefficient is (sum of entries) / 4 *)
+Example C08_haar2d_example :
+  let X := [[q2h 4 0; q2h 8 0]; [q2h 12 0; q2h 16 0]; [q2h 20 0; q2h 24 0]] in
+  forallb (fun p => q2veqb (fst p) (snd p)) (combine (dwt2_adj Q2S q2c 2 3 2 (dwt2_fwd Q2S q2c 2 3 2 X)) X) = true /\
+  q2eqb (nth 0 (nth 0 (dwt2_fwd Q2S q2c 2 3 2 X) []) q2_0) (q2h 21 0) = true.
+Proof. vm_compute. split; reflexivity. Qed.
+Print Assumptions C08_haar2d_example.
